@@ -7,8 +7,9 @@ Ev == TraceLog[l]
 IsEvent(e) == l <= TraceLen /\ Ev.e = e /\ l' = l + 1
 THostile == IsEvent("Hostile") /\ Hostile(Ev.changed, Ev.stray)
 TProbe == IsEvent("Probe") /\ Probe(Ev.u, Ev.ok)
+TRefusal == IsEvent("Refusal") /\ Refusal(Ev.gone)
 TReset == IsEvent("Reset") /\ MSReset
-TNext == THostile \/ TProbe \/ TReset
+TNext == THostile \/ TProbe \/ TRefusal \/ TReset
 TraceSpec == TInit /\ [][TNext]_tvars
 TraceAccepted ==
     LET d == TLCGet("stats").diameter IN
